@@ -4,6 +4,7 @@ The defining sums are those of PcProofs/Spec (noncomputable, Mathlib vocabulary)
 PcModel/Formulas.lean are what the correspondence streams compare the C++ terms with.
 -/
 import PcProofs.Spec.All
+import PcProofs.FormulasMain
 
 namespace Pc.C08
 open Pc.Spec
@@ -53,6 +54,22 @@ theorem leaf_decomposition (x a z b : ℕ) (hz : 1 ≤ z) (hb : b ≤ a) :
 theorem phi_recurrence (x a : ℕ) (ha : 1 ≤ a) : phi x a + phi (x / p a) (a - 1) = phi x (a - 1) :=
   phi_rec x a ha
 
+/-- The EXECUTABLE reference the C++ terms are compared with (op `ident_dr` of pcdrv: `PcModel/Formulas.lean` over the
+    table the driver builds) sums to π(x) for every x and every admissible y, c — and each of its terms is proved equal to
+    the corresponding `Pc.Spec` definition (`NT.S1_eq`, `NT.S2trivial_eq`, `NT.S2easy_eq`, `NT.S2hard_eq`, `NT.P2_eq`). -/
+theorem executable_dr_total {x y c : ℕ} {t : NT} (ht : Drv.tableFor x y (x / y) = some t)
+    (hy : 1 ≤ y) (hy2 : y * y ≤ x) (hy3 : x < (y + 1) ^ 3) (hc : c ≤ Nat.primeCounting y) :
+    t.S1 x y c + t.S2trivial x y (x / y) c + t.S2easy x y (x / y) c + t.S2hard x y (x / y) c + (t.piOf y : ℤ) - 1
+      - t.P2 x y = (Nat.primeCounting x : ℤ) := NT_dr_total_tableFor ht hy hy2 hy3 hc
+
+/-- the same for Gourdon's decomposition (op `ident_gourdon`): A + C − B + D + Φ0 + Σ = π(x) for every admissible
+    (y, z, k); terms equal to the Spec definitions by `NT.A_eq`, `NT.C_eq`, `NT.B_eq`, `NT.D_eq`, `NT.Phi0_eq`, `NT.Sigma_eq` -/
+theorem executable_gourdon_total {x y z k : ℕ} {t : NT} (ht : Drv.tableFor x y z = some t)
+    (hy : irootN 3 x < y) (hy2 : y * y ≤ x) (hyz : y ≤ z) (hz : z * z ≤ x)
+    (hk : k ≤ Nat.primeCounting (irootN 4 x)) :
+    t.A x y + t.C x y z k - t.B x y + t.D x y z k + t.Phi0 x y z k + t.Sigma x y = (Nat.primeCounting x : ℤ) :=
+  NT_gourdon_total_tableFor ht hy hy2 hyz hz hk
+
 /-! non-vacuity: the hypotheses are met by concrete non-trivial parameters -/
 example := dr_identity 1000 12 2 (by norm_num) (by norm_num) (by norm_num)
   (by rw [show Nat.primeCounting 12 = 5 by decide]; norm_num)
@@ -69,3 +86,5 @@ end Pc.C08
 #print axioms Pc.C08.P2_as_sum
 #print axioms Pc.C08.leaf_decomposition
 #print axioms Pc.C08.phi_recurrence
+#print axioms Pc.C08.executable_dr_total
+#print axioms Pc.C08.executable_gourdon_total
